@@ -25,6 +25,25 @@ CHECKS = {
              "and counts concrete at API level (raw-column obligation covers them symbolically).",
         technique="CrossHair symbolic execution (z3) of real wn._add/_queries/_core over an executable SQL model",
         ref='4 C01'),
+    'C06': dict(
+        text="Bounded symbolic model checking of the real add_lexical_resource / remove with the point "
+             "of failure as a symbolic integer: the k-th SQL call or progress callback raises (Exception "
+             "or BaseException), or one reference of the document is corrupted; the model database must "
+             "equal its snapshot, no transaction may stay open and a following add must give the normal "
+             "result. Exhaustive over k for the stated resources.",
+        note=NOTE_COMMON + DB_NOTE + "Transaction semantics (implicit BEGIN, with-block commit/rollback) "
+             "are part of the model; crash consistency is outside the property.",
+        technique="CrossHair symbolic execution (z3) with symbolic fault index over an executable SQL model",
+        ref='4 C06'),
+    'C13': dict(
+        text="Bounded symbolic model checking of the real wn.taxonomy functions and Synset.relation_paths: "
+             "adjacency bits of the hypernym graph are symbolic, so every DAG on 4 (thorough: 5) nodes in "
+             "two labellings and every digraph on 3 nodes is covered; results are compared with textbook "
+             "definitions; termination via a call budget.",
+        note=NOTE_COMMON + "The SQL relation query is stubbed by the adjacency matrix (column layout of the "
+             "real query); counterexamples are replayed on a real database built from the graph.",
+        technique="CrossHair symbolic execution (z3) over symbolic adjacency matrices vs. graph-theoretic oracle",
+        ref='4 C13'),
     'C18': dict(
         text="Bounded symbolic model checking of the real wn.validate checks: lexicons whose ids, "
              "references, relation targets/types, ILIs, parts of speech and texts are symbolic strings; "
